@@ -37,6 +37,9 @@ func c06kw(g *hgen) Val {
 		if r.Bool(0.5) {
 			return Val{K: "strer", S: "", D: 1} // non-zero stringer, empty text
 		}
+		if r.Bool(0.5) {
+			return Val{K: "nstr", S: "ns" + itoa(r.Intn(5)), D: r.Intn(2)} // named string types
+		}
 		return vAwk([]int{0, 1, 2, 3, 19, 23}[r.Intn(6)]) // typed-nil pointers: ignored
 	}
 	g.uniq++
